@@ -99,6 +99,7 @@ def run(ctx):
                 "in the driver; every statistic, both distributions, compared after every op; non-trivial = final state has >=2 accepted, >=1 rejected "
                 "window and >=2 distinct peak frequencies; distinct by history hash")
     rng = np.random.default_rng(ctx.seed)
+    hvgen.ZERO_SAMPLES = True      # 8 % of the curve sets hold one exact zero amplitude (log 0 = -inf)
     n = ctx.budget(150, 2500)
     hists = [hvhist.build_history(rng, i + 1, "T", int(rng.integers(1, 9))) for i in range(n)]
     hvhist.run_histories(ctx, hists, "statistics-equal-estimators-on-accepted", "accept-state-after-history", nontrivial)
